@@ -1,8 +1,11 @@
 """C26 Time-triggered <-> STN plan conversions are faithful.
 
-Symbolic: the start times and durations of the timed action instances, Fraction(k, 4) with k a
-solver variable in a small window (<= 3 symbolic numerators per shard; the other numerators are
-fixed).  The problems (Boolean fluents; at-start / at-end / over-all / open-interval / intermediate
+Symbolic: the start time and the duration of EVERY timed action instance of the plan: a whole number k of
+ticks with k a solver variable in a window (tick = 1: Fraction(k); the skeleton constants are whole ticks
+too, so coinciding and distinct event times are decided by the solver; Fraction(k, 4) normalises through a
+gcd on the symbolic numerator, which fragments every path, so genuine quarter-valued times are run on
+concrete pools by the direct engine in the quick tier and symbolically with one numerator in the thorough
+tier).  The problems (Boolean fluents; at-start / at-end / over-all / open-interval / intermediate
 conditions and effects; instantaneous actions; timed effects and timed goals; object parameters)
 are concrete skeletons, built in the path's fresh environment.
 Real code: TimeTriggeredPlanValidator (antecedent and final verdict), TimeTriggeredPlan.convert_to
@@ -42,16 +45,15 @@ FUNCTIONS = [
     "unified_planning.engines.plan_validator:TimeTriggeredPlanValidator._validate",
 ]
 BOUNDS = ("9 temporal skeletons over Boolean fluents (chain of two durative actions with at-start/over-all/at-end conditions and "
-          "effects; two instances of one action; instantaneous problem with an independent third action; durative + instantaneous; "
-          "timed effects + timed goal; object parameters with independent instances; open / half-open over-all intervals; "
-          "intermediate effects; problem.epsilon = 1/4); plans of 2-3 timed action instances; start times and durations k/4 with "
-          "<= 3 symbolic numerators per shard in windows of width <= 8 (quick) / <= 12 (thorough), the others fixed")
-OUTSIDE = ("numeric fluents, conditional effects, simulated effects, more than 3 action instances, denominators other than 4, "
-           "plans in a non-global Environment (probed by one concrete shard only)")
+          "effects, over-all interval closed / open / left-open / right-open; two instances of one action; instantaneous problem with an "
+          "independent third action; durative + instantaneous; timed effects + timed goal; object parameters with independent instances; "
+          "intermediate effects; three / four (thorough) chained actions); plans of 2-3 (thorough: 4) timed action instances; start times "
+          "and durations whole ticks in 0..10 (quick) / 0..40 (thorough), all of them symbolic where problem.epsilon is given (1/1000, 2 or 3 "
+          "ticks), 2-3 symbolic where the conversion derives epsilon itself (extract_epsilon()/10 forks on gcds); quarter-valued times "
+          "from pools 0..9 (direct engine)")
+OUTSIDE = ("numeric fluents, conditional effects, simulated effects, more than 4 action instances, symbolic numerators over a "
+           "denominator other than 1 in the quick tier")
 ASSUMPTIONS = [
-    "the converted plan lives in the global environment: _convert_to_stn builds its helper actions without an environment, so the "
-    "path's fresh Environment is installed as GLOBAL_ENVIRONMENT around the two convert_to calls (vf/tplan.as_global); the non-global "
-    "case is the subject of shard env-nonglobal",
     "when problem.epsilon is set, only plans whose distinct event times are at least epsilon apart are considered "
     "(plan.extract_epsilon(problem) >= problem.epsilon); the validator itself does not enforce the separation",
     "constraint (L, U, B) under key A is read as L <= time(B) - time(A) <= U (the implemented meaning)",
@@ -372,7 +374,7 @@ def _tick(k, den):
     return Fraction(k) if den == 1 else Fraction(k, den)
 
 
-def h_roundtrip(ctx, sk, sym, vals=None, eps=None, variant=None, den=1, use_global=True):
+def h_roundtrip(ctx, sk, sym, vals=None, eps=None, variant=None, den=1, use_global=False):
     from unified_planning.plans import ActionInstance, PlanKind, TimeTriggeredPlan
 
     env = ctx.fresh_env(hashcons="syntactic")
@@ -447,10 +449,11 @@ def _null():
     return contextlib.nullcontext()
 
 
-def h_env(ctx, sk):
-    """The conversion in a NON-global environment (concrete default plan of the skeleton)."""
-    h_roundtrip(ctx, sk, {}, den=4, use_global=False)
-    ctx.witness("nonglobal-env")
+def h_env(ctx, sk, use_global):
+    """Concrete default plan of the skeleton, converted in the path's own (non-global) environment resp. with that environment
+    installed as the global one (the situation the conversion was written for)."""
+    h_roundtrip(ctx, sk, {}, den=4, use_global=use_global)
+    ctx.witness("global-env" if use_global else "nonglobal-env")
 
 
 def _sh(name, sk, sym, tier, vals=None, eps=None, variant=None, den=1, engine=None):
@@ -524,7 +527,8 @@ def shards(tier, seed):
     out.append(_sh("chain-den4-pool", "chain", dict(s1=[0, 9], d1=[0, 9]), tier, den=4, engine="direct"))
     out.append(_sh("interm-den4-pool", "interm", dict(s1=[0, 10], d0=[4, 10]), tier, den=4, engine="direct"))
     out.append(_sh("chain-open-noeps-den4-pool", "chain", dict(s1=[0, 9], d1=[0, 9]), tier, den=4, variant="open", engine="direct"))
-    out.append(dict(name="env-nonglobal", fn="h_env", kwargs=dict(sk="chain"), budget=60, engine="direct"))
+    out.append(dict(name="env-nonglobal", fn="h_env", kwargs=dict(sk="chain", use_global=False), budget=60, engine="direct"))
+    out.append(dict(name="env-global", fn="h_env", kwargs=dict(sk="chain", use_global=True), budget=60, engine="direct"))
     return out
 
 
@@ -534,5 +538,5 @@ MANIFEST = dict(
     text="Bounded model checking: for each temporal skeleton and EVERY value of the symbolic start-time/duration numerators in the stated windows for which the real validator accepts the plan, "
          "the converted STN plan is consistent, the original times satisfy every constraint it returns (GLOBAL_END eliminated), and the plan converted back is accepted by the real validator. "
          "Coinciding and distinct event times are found by the solver, not sampled.",
-    note="Trusted: CrossHair's int/Fraction model, z3. The conversion is run with the path's environment installed as the global one (the code creates its helper actions in the global environment); one concrete shard runs it in a non-global environment. Outside: numeric fluents, >3 instances, other denominators.",
+    note="Trusted: CrossHair's int/Fraction model, z3. Every path converts in its own fresh (non-global) Environment; one concrete shard converts with that environment installed as the global one. Outside: numeric fluents, >3 instances, other denominators.",
 )
